@@ -127,7 +127,10 @@ Fixpoint apply_modules (ms : list module) (st : coll * nat) : coll * nat * optio
   end.
 
 (* ------------------------------------------------------------------ dependency relation *)
-Definition dep_ident (d : dep) : ident := (d_ty d, name_key (d_name d), d_group d).
+(* a group dependency is filled by group alone: a name next to the group is ignored, at run time and by the
+   build-time validations alike *)
+Definition dep_key (d : dep) : key := if d_group d =? 0 then name_key (d_name d) else KNone.
+Definition dep_ident (d : dep) : ident := (d_ty d, dep_key d, d_group d).
 Fixpoint deps_of (ps : list param) : list dep :=
   match ps with
   | [] => []
@@ -263,20 +266,24 @@ Definition track_single (p : prov) (i : inst) : prov :=
   then mkProv (p_descs p) (p_scopes p) (p_single p) (i :: p_sdisp p) (p_open p)
   else p.
 
-(* setInstance *)
-Definition set_instance (p : prov) (h : nat) (d : desc) (i : inst) : prov :=
-  match ds_life d with
-  | Singleton => track_single (single_set p (ds_ident d) i) i
-  | Scoped => track_scope (cache_set p h (ds_ident d) i) h i
+(* setInstance: where an instance of the given lifetime is stored and who disposes it.  All descriptors of one
+   registration carry the registration's lifetime, so the aliases and the other outputs of a construction are
+   stored with the lifetime of the descriptor that is being constructed. *)
+Definition store (life : lifetime) (p : prov) (h : nat) (n : ident) (i : inst) : prov :=
+  match life with
+  | Singleton => track_single (single_set p n i) i
+  | Scoped => track_scope (cache_set p h n i) h i
   | Transient => track_scope p h i
   end.
+Definition set_instance (p : prov) (h : nat) (d : desc) (i : inst) : prov := store (ds_life d) p h (ds_ident d) i.
 (* the other interface aliases of a single-output registration share the instance, untracked *)
-Definition share_instance (p : prov) (h : nat) (d : desc) (i : inst) : prov :=
-  match ds_life d with
-  | Singleton => single_set p (ds_ident d) i
-  | Scoped => cache_set p h (ds_ident d) i
+Definition share (life : lifetime) (p : prov) (h : nat) (n : ident) (i : inst) : prov :=
+  match life with
+  | Singleton => single_set p n i
+  | Scoped => cache_set p h n i
   | Transient => p
   end.
+Definition share_instance (p : prov) (h : nat) (d : desc) (i : inst) : prov := share (ds_life d) p h (ds_ident d) i.
 (* an output of a multi-output constructor whose registration was removed: stored nowhere, disposed by its owner *)
 Definition drop_output (p : prov) (h : nat) (life : lifetime) (i : inst) : prov :=
   match life with
@@ -303,6 +310,13 @@ Definition effective_outcome (r : reg) (inv : nat) : outcome :=
 Definition cancels (r : reg) (inv : nat) : bool :=
   match nth_default OOk (r_script r) inv with OCancelBuild => true | _ => false end.
 Definition out_inst (r : reg) (inv k : nat) : inst := IObj (r_id r) inv k (nth_default 0 (r_dyn r) k).
+(* an output the constructor leaves nil (multi-output constructors only); what is remembered for it reads as nil *)
+Definition out_is_nil (r : reg) (k : nat) : bool := nth_default 0 (r_dyn r) k =? T_NILOUT.
+Definition aval_of (i : inst) : aval :=
+  match i with
+  | IObj _ _ _ dyn => if dyn =? T_NILOUT then AZero else AInst i
+  | IVoid => AInst i
+  end.
 
 Definition builtin (h : nat) (t : ty) : option aval :=
   if t =? T_CTX then Some (ACtx h) else if t =? T_SCOPE then Some (AScope h) else if t =? T_PROV then Some AProv else None.
@@ -363,7 +377,10 @@ Section Resolve.
     | k :: rest =>
         match output_desc (p_descs p) d k with
         | None => fan_out (drop_output p h (ds_life d) (out_inst (ds_reg d) inv k)) h d inv rest
-        | Some sd => fan_out (set_instance p h sd (out_inst (ds_reg d) inv k)) h d inv rest
+        | Some sd =>
+            if out_is_nil (ds_reg d) k && life_eqb (ds_life d) Singleton
+            then fan_out p h d inv rest        (* setSingleton ignores nil; a scope remembers it as nil *)
+            else fan_out (store (ds_life d) p h (ds_ident sd) (out_inst (ds_reg d) inv k)) h d inv rest
         end
     end.
 
@@ -374,7 +391,7 @@ Section Resolve.
     | FInst t =>
         let i := IObj (r_id r) 0 0 t in
         let p1 := set_instance (rs_p rs) h d i in
-        let p2 := fold_left (fun p a => share_instance p h a i) (aliases_of (p_descs p1) d) p1 in
+        let p2 := fold_left (fun p a => share (ds_life d) p h (ds_ident a) i) (aliases_of (p_descs p1) d) p1 in
         (with_p rs p2, ROkV (AInst i))
     | _ =>
         let '(inobj, ps) := reg_params r in
@@ -396,12 +413,13 @@ Section Resolve.
                 | FCtor _ _ [_] _ =>
                     let i := out_inst r inv 0 in
                     let p1 := set_instance (rs_p rs2) h d i in
-                    let p2 := fold_left (fun p a => share_instance p h a i) (aliases_of (p_descs p1) d) p1 in
+                    let p2 := fold_left (fun p a => share (ds_life d) p h (ds_ident a) i) (aliases_of (p_descs p1) d) p1 in
                     (with_p rs2 p2, ROkV (AInst i))
                 | FCtor _ _ ts _ =>
-                    (with_p rs2 (fan_out (rs_p rs2) h d inv (seq 0 (length ts))), ROkV (AInst (out_inst r inv (ds_out d))))
+                    (with_p rs2 (fan_out (rs_p rs2) h d inv (seq 0 (length ts))), ROkV (aval_of (out_inst r inv (ds_out d))))
                 | FResult _ _ fs _ =>
-                    (with_p rs2 (fan_out (rs_p rs2) h d inv (seq 0 (length fs))), ROkV (AInst (out_inst r inv (ds_out d))))
+                    (with_p rs2 (fan_out (rs_p rs2) h d inv (seq 0 (length fs))),
+                     ROkV (aval_of (out_inst r inv (ds_out d))))
                 | FInst _ => (rs2, RFail EOther)
                 end
             end
@@ -417,12 +435,12 @@ Fixpoint resolve_d (fuel : nat) (rs : rstate) (h : nat) (d : desc) : rstate * rr
       match ds_life d with
       | Singleton =>
           match lookup_i (p_single (rs_p rs)) (ds_ident d) with
-          | Some i => (rs, ROkV (AInst i))
+          | Some i => (rs, ROkV (aval_of i))
           | None => (rs, RFail ESingletonNotInit)
           end
       | Scoped =>
           match lookup_i (sc_cache (get_scope (rs_p rs) h)) (ds_ident d) with
-          | Some i => (rs, ROkV (AInst i))
+          | Some i => (rs, ROkV (aval_of i))
           | None => create (resolve_d f) rs h d
           end
       | Transient => create (resolve_d f) rs h d
@@ -521,23 +539,33 @@ Fixpoint run_inits (rs : rstate) (h : nat) (ds : list desc) : rstate * option rr
   end.
 
 (* create the singletons: registrations in oracle order first, then whatever is still missing *)
+(* another output of the same registration call already has its instance: the constructor ran, and left this
+   output nil *)
+Definition sibling_created (p : prov) (d : desc) : bool :=
+  existsb (fun sd => (ds_rid sd =? ds_rid d) && (ds_call sd =? ds_call d) && negb (ident_eqb (ds_ident sd) (ds_ident d)) &&
+                     negb (ds_out sd =? ds_out d) &&
+                     match lookup_i (p_single p) (ds_ident sd) with Some _ => true | None => false end) (p_descs p).
 Definition singleton_pending (p : prov) (d : desc) : bool :=
   life_eqb (ds_life d) Singleton &&
-  match lookup_i (p_single p) (ds_ident d) with Some _ => false | None => true end.
+  match lookup_i (p_single p) (ds_ident d) with Some _ => false | None => true end &&
+  negb (sibling_created p d).
 (* the Build context is checked before each singleton is created *)
 Definition build_cancelled (rs : rstate) : bool :=
   existsb (fun e => match e with EvCancel => true | _ => false end) (rs_ev rs).
-Fixpoint create_singletons (rs : rstate) (ds : list desc) : rstate * option rres :=
+(* each descriptor is attempted at most once per Build ([att]: identities attempted so far): a descriptor whose
+   output the constructor leaves nil stays without an instance, and is not a reason to run the constructor again *)
+Definition attempted (att : list ident) (d : desc) : bool := existsb (ident_eqb (ds_ident d)) att.
+Fixpoint create_singletons (rs : rstate) (att : list ident) (ds : list desc) : rstate * list ident * option rres :=
   match ds with
-  | [] => (rs, None)
+  | [] => (rs, att, None)
   | d :: ds' =>
-      if singleton_pending (rs_p rs) d
-      then if build_cancelled rs then (rs, Some (RFail ECancelled)) else
+      if singleton_pending (rs_p rs) d && negb (attempted att d)
+      then if build_cancelled rs then (rs, att, Some (RFail ECancelled)) else
            match create_top rs 0 d with
-           | (rs1, ROkV _) => create_singletons rs1 ds'
-           | (rs1, r) => (rs1, Some r)
+           | (rs1, ROkV _) => create_singletons rs1 (ds_ident d :: att) ds'
+           | (rs1, r) => (rs1, att, Some r)
            end
-      else create_singletons rs ds'
+      else create_singletons rs att ds'
   end.
 (* instance values have no constructor and no dependencies: the non-disposable ones the oracle does not
    place (their position is unobservable) come first; a disposable one is placed by the oracle whenever it
@@ -546,27 +574,30 @@ Definition is_inst_desc (d : desc) : bool := match r_form (ds_reg d) with FInst 
 Definition unplaced_instances (c : coll) (ord : list nat) : list desc :=
   filter (fun d => is_inst_desc d && negb (mem_nat (ds_rid d) ord)) c.
 (* the oracle: each entry constructs the first still-missing singleton descriptor of that registration *)
-Fixpoint create_by_order (rs : rstate) (c : coll) (ord : list nat) : rstate * option rres :=
+Fixpoint create_by_order (rs : rstate) (att : list ident) (c : coll) (ord : list nat) : rstate * list ident * option rres :=
   match ord with
-  | [] => (rs, None)
+  | [] => (rs, att, None)
   | rid :: ord' =>
-      match find (fun d => (ds_rid d =? rid) && singleton_pending (rs_p rs) d) c with
-      | None => create_by_order rs c ord'
+      match find (fun d => (ds_rid d =? rid) && singleton_pending (rs_p rs) d && negb (attempted att d)) c with
+      | None => create_by_order rs att c ord'
       | Some d =>
-          if build_cancelled rs then (rs, Some (RFail ECancelled)) else
+          if build_cancelled rs then (rs, att, Some (RFail ECancelled)) else
           match create_top rs 0 d with
-          | (rs1, ROkV _) => create_by_order rs1 c ord'
-          | (rs1, r) => (rs1, Some r)
+          | (rs1, ROkV _) => create_by_order rs1 (ds_ident d :: att) c ord'
+          | (rs1, r) => (rs1, att, Some r)
           end
       end
   end.
 Definition create_all_singletons (rs : rstate) (c : coll) (ord : list nat) : rstate * option rres :=
-  match create_singletons rs (unplaced_instances c ord) with
-  | (rs1, Some r) => (rs1, Some r)
-  | (rs1, None) =>
-      match create_by_order rs1 c ord with
-      | (rs2, Some r) => (rs2, Some r)
-      | (rs2, None) => create_singletons rs2 c
+  match create_singletons rs [] (unplaced_instances c ord) with
+  | (rs1, _, Some r) => (rs1, Some r)
+  | (rs1, att1, None) =>
+      match create_by_order rs1 att1 c ord with
+      | (rs2, _, Some r) => (rs2, Some r)
+      | (rs2, att2, None) =>
+          match create_singletons rs2 att2 c with
+          | (rs3, _, r) => (rs3, r)
+          end
       end
   end.
 
